@@ -35,4 +35,19 @@ CLAIMED = {
              "exactly the reviewed fields from write_head/sequence, scan reports a record only after checksum equality and bounds, records_after filters strictly by sequence.",
         note="Not decided: the exhaustive state-space claim over operation sequences and sizes (value reasoning). The rule found a genuine defect on the pinned tree (sentinel wrap), repaired by fix commit f7468a8.",
         design_ref="DESIGN.md §4 C05"),
+    "C01": dict(
+        technique="MIR must-pass-through (success-edge dominance of Ok exits) + who-may-call tables over the call graph",
+        text="Partial (protocol skeleton): on every path an acknowledged put/update/delete is dominated by a successful WAL append; the log window "
+             "(record_checkpoint) moves only after apply_records succeeded on the WAL's own pending records, at the reviewed call sites only; open returns "
+             "Ok only after recover_wal replayed records_after(header.wal_sequence); drop commits on the dirty edge and every acknowledged append sets dirty.",
+        note="Not decided: equality with a reference model over histories (runtime values), content fidelity across in-place WAL growth.",
+        design_ref="DESIGN.md §4 C01"),
+    "C03": dict(
+        technique="interprocedural sync typestate (write=>unsynced, fsync=>clean; bottom-up summaries to a fixpoint over 650+ functions) + ordering dominance",
+        text="Partial (sync-before-ack): every acknowledging function (put, delete, commit variants, tickets, vacuum, WAL growth, create, open-time replay) "
+             "returns Ok only in the clean state on all paths; the staging file is clean at the rename; write_record's only deferral is the skip_sync edge whose "
+             "protocol (set only by begin/end_batch, flush before clearing) is checked; the header is published only after the TOC/footer was written and synced.",
+        note="Not decided: torn writes, directory durability inside atomic-write-file (trusted), whether the file opens after loss. Reviewed exemption: the WAL end sentinel. "
+             "recover_wal's empty-log branch (re-derivable Tantivy flush) is out of scope by rule.",
+        design_ref="DESIGN.md §4 C03"),
 }
